@@ -63,9 +63,11 @@ def make(sc, init_epoch, seed):
     from pydrobert.torch.data import EpochRandomSampler, EpochSequentialSampler
 
     ds = range(sc["N"])
+    # the mode as it arrives from a configuration file or a command line: an equal string, not the literal's object
+    mode = "".join(list(sc["mode"]))
     if sc["kind"] == "random":
-        return EpochRandomSampler(ds, init_epoch, seed, sc["mode"])
-    return EpochSequentialSampler(ds, init_epoch, sc["mode"])
+        return EpochRandomSampler(ds, init_epoch, seed, mode)
+    return EpochSequentialSampler(ds, init_epoch, mode)
 
 
 def execute_huge(sc):
